@@ -183,6 +183,8 @@ impl Network {
         wallet_lock: Arc<RwLock<Wallet>>,
         config_lock: Arc<RwLock<dyn Configuration + Send + Sync>>,
     ) {
+        // configs come before peers in the lock order : read what the answer needs first
+        let (is_lite, block_fetch_url) = Self::read_handshake_configs(&config_lock).await;
         let mut peers = self.peer_lock.write().await;
 
         let peer = peers.index_to_peers.get_mut(&peer_index);
@@ -210,10 +212,24 @@ impl Network {
             challenge,
             self.io_interface.as_ref(),
             wallet_lock.clone(),
-            config_lock,
+            is_lite,
+            block_fetch_url,
         )
         .await
         .unwrap();
+    }
+
+    /// what a handshake answer takes from the configs : (is lite node, block fetch url)
+    async fn read_handshake_configs(
+        config_lock: &Arc<RwLock<dyn Configuration + Send + Sync>>,
+    ) -> (bool, String) {
+        let configs = config_lock.read().await;
+        let is_lite = configs.is_spv_mode();
+        if is_lite {
+            (is_lite, "".to_string())
+        } else {
+            (is_lite, configs.get_block_fetch_url())
+        }
     }
     pub async fn handle_handshake_response(
         &mut self,
@@ -223,6 +239,8 @@ impl Network {
         blockchain_lock: Arc<RwLock<Blockchain>>,
         configs_lock: Arc<RwLock<dyn Configuration + Send + Sync>>,
     ) {
+        // configs come before peers in the lock order : read what the answer needs first
+        let (is_lite, block_fetch_url) = Self::read_handshake_configs(&configs_lock).await;
         let mut peers = self.peer_lock.write().await;
         let public_key;
         {
@@ -249,7 +267,8 @@ impl Network {
                     response,
                     self.io_interface.as_ref(),
                     wallet_lock.clone(),
-                    configs_lock.clone(),
+                    is_lite,
+                    block_fetch_url,
                     current_time,
                 )
                 .await;
